@@ -330,11 +330,11 @@ def main(tier, seed):
     for r in pmap(work, specs, chunksize=4):
         rep.merge_worker("programs", r)
     rep.section("programs", None, programs=len(specs))
-    ex = Explorer()
+    ex = Explorer(max_paths=3000, budget_s=90)
     ex.run(make_body({"prog": DECL + [["q", "q"], ["g", "q", "H"], ["m", "q", FA0, False], ["flush"]]}, falsify=True))
     rep.witness("event trace with falsified oracle", any(c.label == "event_trace" for c in ex.cexs))
 
     def one():
-        Explorer().run(make_body({"prog": DECL + until_atoms(1)[0] + [["flush"]] + loop_atoms(2)[6] + [["flush"]]}))
+        Explorer(max_paths=4, budget_s=30).run(make_body({"prog": DECL + until_atoms(1)[0] + [["flush"]] + loop_atoms(2)[6] + [["flush"]]}))
     rep.functions_encoded |= trace_functions(one)
     return rep.finish(replay)
